@@ -254,6 +254,19 @@ def build_cases(rng, worlds, probes, tier):
                 lines = lines[1:]
             cases.append(dict(base_of, kind="refusal-%d" % (len(base) + 1), base=ms, runs=runs, lines=lines,
                               allow=rng.random() < 0.3, exporter_allow=rng.random() < 0.3, strict=True))
+        # enabling pairs: an inapplicable member whose reads are written by an applicable one placed before / after it.
+        # Refusal is decided in the state the joint action is applied in, so both orders must be refused.
+        pairs = [(g, b) for g in good for b in bad
+                 if (fp_of(g)["add"] | fp_of(g)["del"]) & fp_of(b)["ra"] or fp_of(g)["set"] & fp_of(b)["rf"]]
+        rng.shuffle(pairs)
+        for g, b in pairs[:2]:
+            runs = [{"members": [g, b], "allow": False, "tag": "enabler-before"},
+                    {"members": [b, g], "allow": False, "tag": "enabler-after"},
+                    {"members": [g, list(NOP), b], "allow": False, "tag": "enabler-before"},
+                    {"members": [g, b], "allow": True, "tag": "enabler-allowed"}]
+            cases.append(dict(base_of, kind="refusal-enabler", base=[g, b], runs=runs,
+                              lines=[render_joint(rng, with_nops(rng, [g, b], 1))], allow=False, exporter_allow=False,
+                              strict=True))
         if rng.random() < 0.5:
             kind = rng.choice(MALFORMED)
             lines = [render_joint(rng, with_nops(rng, [rng.choice(wd["calls"])], 1)) for _ in range(rng.randint(0, 1))]
@@ -341,6 +354,40 @@ CLASS_NAMES = {"n": "non_interfering_all_applicable(judged)", "r": "refusal(judg
                "m": "malformed_plan(model only)"}
 
 
+def lex_part(rep, args, rng):
+    """the joint-action reader alone, exhaustively on a small scope: EVERY text of length <= N over
+    { ( ) a blank , - ? . [ } plus random longer ones; model (one-pass scanner for the regular expression) vs re.finditer"""
+    import itertools
+    from ..common import write_replay
+    alphabet = ["(", ")", "a", " ", ",", "-", "?", ".", "["]
+    maxlen = {"quick": 3, "thorough": 4}[args.tier]
+    texts = ["".join(t) for n in range(maxlen + 1) for t in itertools.product(alphabet, repeat=n)]
+    n_exh = len(texts)
+    for _ in range({"quick": 300, "thorough": 3000}[args.tier]):
+        texts.append("".join(rng.choice(alphabet + ["(", ")", "nop", "b1", "+", "_", "\t", "]", "X"]) for _ in range(rng.randint(maxlen + 1, 14))))
+    chunks = [texts[i:i + 400] for i in range(0, len(texts), 400)]
+    res = [r for out in run_impl([{"op": "c16.lex", "texts": ch} for ch in chunks]) for r in out]
+    lits = []
+    for t, r in zip(texts, res):
+        ob = "(Returned %s)" % clist([ccall(m) for m in r["members"]]) if "members" in r else "Raised"
+        lits.append("{| y_text := %s; y_obs := %s |}" % (cstr(t), ob))
+    verdicts, info = run_case_shards(PROP + "/lex", CORR, lits, shard_size=2500, run_fn="Corr.C16.run_jlex", max_bytes=100_000)
+    cov = rep.coverage
+    cov["obligations"] = cov.get("obligations", 0) + info["shards"]
+    cov["discharged"] = cov.get("discharged", 0) + info["shards"] - len(info["shard_errors"])
+    bad = [i for i, ch in enumerate(verdicts) if ch != "."]
+    cov["lexical_scope"] = {"alphabet": alphabet, "max_length_exhaustive": maxlen, "texts_exhaustive": n_exh,
+                            "texts_random_longer": len(texts) - n_exh, "returned": sum(1 for r in res if "members" in r),
+                            "with_members": sum(1 for r in res if r.get("members")),
+                            "raised": sum(1 for r in res if "raised" in r), "disagreements": len(bad), "shards": info["shards"]}
+    cov["evaluations"] = cov.get("evaluations", 0) + len(texts)
+    cov["traces_validated_against_impl"] = cov.get("traces_validated_against_impl", 0) + len(texts) - len(bad)
+    for i in bad[:3]:
+        rep.violation(write_replay(PROP, "lex_%05d" % i, {"kind": "correspondence", "why": "joint-action reader: implementation "
+                      "differs from the model's scanner on this text (text layer only; no spec judgement)",
+                      "input": {"text": texts[i]}, "implementation": res[i], "verdict": verdicts[i]}), False)
+
+
 def run(args):
     rep = Report(PROP, args.tier, args.seed)
     standard_proof_part(rep, PROP)
@@ -350,11 +397,11 @@ def run(args):
         data = json.load(open(args.replay))
         cases = [data["input"]["case"]]
     else:
-        worlds = gen_worlds(rng, {"quick": 34, "thorough": 300}[args.tier])
+        worlds = gen_worlds(rng, {"quick": 34, "thorough": 180}[args.tier])
         probes = run_impl([{"op": "c16.probe", "domain_text": w["domain_text"], "problem_text": w["problem_text"],
                             "calls": w["calls"]} for w in worlds])
         cases = corpus_cases() + fixture_cases(args.tier) + build_cases(rng, worlds, probes, args.tier)
-    hashseeds = [0] if args.tier == "quick" else [0, 1, 2]
+    hashseeds = [0] if args.tier == "quick" else [0, 1]
     all_cases, all_verdicts = [], ""
     info_total = {"shards": 0, "shard_errors": [], "cmd": ""}
     dist = {"cases": 0, "by_kind": {}, "direct_runs": 0, "run_tags": {}, "run_classes": {}, "plan_classes": {},
@@ -428,6 +475,8 @@ def run(args):
                 dist["plans_raised"] += 1 if "trace_raised" in res else 0
     decide(rep, PROP, CORR, all_cases, all_verdicts, info_total, explain_expr="Corr.C16.explain %s", header_extra=HEADER,
            max_replays=5)
+    if not args.replay:
+        lex_part(rep, args, rng)
     cov = rep.coverage
     if dist["regex_as_modelled"] is False:
         from ..common import write_replay
